@@ -8,7 +8,7 @@ impl BytesMut {
     #[verifier::external_body]
     pub fn new() -> (r: BytesMut) ensures r@ == Seq::<u8>::empty() { BytesMut { v: Vec::new() } }
     #[verifier::external_body]
-    pub fn len(&self) -> (r: usize) ensures r == self@.len() { self.v.len() }
+    pub fn len(&self) -> (r: usize) ensures r == self@.len(), r <= 0x7fff_ffff_ffff_ffffusize /* Rust allocations never exceed isize::MAX bytes */ { self.v.len() }
     #[verifier::external_body]
     pub fn is_empty(&self) -> (r: bool) ensures r == (self@.len() == 0) { self.v.is_empty() }
     #[verifier::external_body]
@@ -46,7 +46,7 @@ impl Bytes {
     #[verifier::external_body]
     pub fn new() -> (r: Bytes) ensures r@ == Seq::<u8>::empty() { Bytes { v: Vec::new() } }
     #[verifier::external_body]
-    pub fn len(&self) -> (r: usize) ensures r == self@.len() { self.v.len() }
+    pub fn len(&self) -> (r: usize) ensures r == self@.len(), r <= 0x7fff_ffff_ffff_ffffusize /* Rust allocations never exceed isize::MAX bytes */ { self.v.len() }
     #[verifier::external_body]
     pub fn is_empty(&self) -> (r: bool) ensures r == (self@.len() == 0) { self.v.is_empty() }
     #[verifier::external_body]
